@@ -87,9 +87,18 @@ class EmptyPins(Model):
     """GrowingList(): a new empty pin list"""
 
 
+def bound_method(ex, qual, selfobj):
+    from pyvc import source
+    from pyvc.engine import UserFn, BoundUserFn
+    fd, _ = source.find('circuit', qual)
+    return BoundUserFn(UserFn(fd, ex.globs, nested=False, label=qual), selfobj)
+
+
 class LineRef(Ref):
     def m_getattr(self, ex, st, name, node):
         ex.prove(st, f'no-exception:AttributeError .{name} of None', self.oid != NONE, node)
+        if name == 'remove':
+            return bound_method(ex, 'Line.remove', self)          # inlined from its current source
         if name in ('driver', 'reader'):
             return NodeRef(st.heap[('L', name)][self.oid])
         if name == 'circuit':
@@ -108,6 +117,8 @@ class LineRef(Ref):
 class NodeRef(Ref):
     def m_getattr(self, ex, st, name, node):
         ex.prove(st, f'no-exception:AttributeError .{name} of None', self.oid != NONE, node)
+        if name == 'remove':
+            return bound_method(ex, 'Node.remove', self)          # inlined from its current source
         if name in ('outs', 'ins'):
             return PinList(self.oid, name)
         if name == 'kind':
@@ -512,6 +523,63 @@ def node_prims(globs):
     def growing(ex, st, args, kwargs, node):
         return EmptyPins()
     return {globs['GrowingList']: growing}
+
+
+# ------------------------------------------------------------------------------------------- eliminate_1to1_forks: one fork (C10)
+def elim_body(stmts):
+    """body of ``for n in list(self.forks.values()):`` from ``in_line = n.ins[0]`` on (the guards before it select non-port forks with exactly one output)"""
+    for s in stmts:
+        if isinstance(s, ast.For) and 'forks' in ast.unparse(s.iter):
+            for i, x in enumerate(s.body):
+                if isinstance(x, ast.Assign) and isinstance(x.targets[0], ast.Name) and x.targets[0].id == 'in_line':
+                    return list(s.body[i:])
+    from pyvc.engine import ContractError
+    raise ContractError('fork elimination block not found in Circuit.eliminate_1to1_forks')
+
+
+def elim_config():
+    """a fork n of the circuit with exactly one connected input and exactly one output is spliced out: Node.remove and Line.remove are inlined from their current source"""
+    def setup(ex):
+        st = fresh_state(ex)
+        v = V(st)
+        n = ex.fv('n', 'int').e
+        for nm, c in wf_lines(v) + wf_nodes(v):
+            st.assume(SBool(c))
+        st.assume(SBool(z3.And(v.inN(n), v.Nf[n], v.Nc[n] == 0, v.OL[n] == 1, v.IL[n] == 1, v.IN[n][0] != NONE)))
+        st.assume(SBool(v.IN[n][0] != v.O[n][0]))          # the fork does not feed itself (no combinational loop through the fork alone)
+        st.env['n'] = NodeRef(n)
+        ex.g = dict(n=n, v0=v, il=v.IN[n][0], ol=v.O[n][0])
+        return st
+
+    def remove_hook(ex, sub, bound):
+        # entry of the inlined Line.remove: snapshot of the driver-pin field (its re-numbering loop runs over the emptied output list of the fork)
+        ex.g['ldp_at_remove'] = sub.heap[('L', 'driver_pin')]
+
+    def renumber_inv(ex, st):
+        yield 'no driver pin is changed (the fork has no other branch)', SBool(st.heap[('L', 'driver_pin')] == ex.g['ldp_at_remove'])
+
+    def post(ex, st):
+        g = ex.g
+        v0, v1, n, il, ol = g['v0'], V(st), g['n'], g['il'], g['ol']
+        for nm, c in wf_lines(v1) + wf_nodes(v1):
+            yield nm, SBool(c)
+        l, m = z3.Ints('l m')
+        yield 'the fork and its output line are gone', SBool(z3.And(z3.Not(v1.inN(n)), z3.Not(v1.inL(ol)), v1.NN == v0.NN - 1, v1.NL == v0.NL - 1))
+        yield 'the input line of the fork now ends where the output line ended (same reader, same pin); its driver is unchanged', \
+            SBool(z3.And(v1.inL(il), v1.Lr[il] == v0.Lr[ol], v1.Lrp[il] == v0.Lrp[ol], v1.Ld[il] == v0.Ld[il], v1.Ldp[il] == v0.Ldp[il]))
+        yield 'every other line keeps driver, reader and pins; every other node stays', \
+            SBool(z3.And(z3.ForAll([l], z3.Implies(z3.And(l != il, l != ol), z3.And(v1.inL(l) == v0.inL(l), v1.Ld[l] == v0.Ld[l], v1.Lr[l] == v0.Lr[l], v1.Ldp[l] == v0.Ldp[l], v1.Lrp[l] == v0.Lrp[l]))),
+                         z3.ForAll([m], z3.Implies(m != n, v1.inN(m) == v0.inN(m)))))
+        ex.prove(st, 'mustfail:nothing is removed', SBool(v1.NN == v0.NN), ex.fn, expect='refuted')
+    contract = {'post': post, 'expr_fork': True, 'loop_body': True,
+                'inline_loops': {'Line.remove': {0: {'inv': renumber_inv, 'modifies': [('L', 'driver_pin')], 'kinds': {}, 'index': '__kr'}}},
+                'inline_hooks': {'Line.remove': remove_hook}}
+    return Config('non-port fork with one input and one output in a well-formed circuit', contract, setup, None)
+
+
+def targets_c10():
+    return [Target('circuit', 'Circuit.eliminate_1to1_forks', [elim_config()], body_slice=elim_body, instantiate='fallback', label='one fork',
+                   note='loop body from `in_line = n.ins[0]` on; Node.remove / Line.remove inlined')]
 
 
 def targets():
